@@ -1075,6 +1075,9 @@ def rule_r6(chk) -> None:
 def run(chk) -> None:
     from ._engine import engine_view
     chk.extra["helpers_inlined"] = engine_view(chk.repo)
+    from ._engine import inlined_view
+    for mod_ in (LIFE, DBI):
+        chk.extra["helpers_inlined"] += inlined_view(chk.repo, mod_, __file__)
     rule_r1(chk)
     rule_r3(chk)
     rule_r4(chk)
